@@ -48,6 +48,10 @@ def check(repo, col, tier):
     _named(repo, col)
     _basestate(repo, col)
     keyclass_on_base(repo, col, "R-C11-keyclass")
+    col.rule("R-C11-groups", "groups hold sorted, unique row labels", 2)
+    group_normal_form(repo, col)
+    col.rule("R-C11-structure", "a view's structure attributes describe its own branches", 2)
+    view_structure(repo, col)
     # inputs given through a view land on that view's rows: values and row indices stay paired (shared with C08/C19)
     col.rule("R-C11-pairing", "stimuli / clamps given through a view stay attached to the rows of that view", 3)
     from . import c08
@@ -228,6 +232,75 @@ def keyclass_on_base(repo, col, R):
     col.rule(R, "node/edge classification of registry keys uses the base module's complete lists of synaptic names", 5)
     if n < 5:
         raise AnalysisError(f"only {n} key-class tests found")
+
+
+def group_normal_form(repo, col, R="R-C11-groups"):
+    """Every value written into the group registry is a sorted array without duplicates: `select(nodes=group)` keeps the
+    order and multiplicity it is given, so `net.group._cells_in_view`, the rows a group's trainable is applied to and the
+    population order of the connectivity builders all rest on it.  A fresh entry (the rows of a view) is sorted and unique by
+    construction; an extension must re-establish the form (np.unique / np.union1d / sort of provably unique parts)."""
+    n = 0
+    for m in repo.classes["Module"].methods.values():
+        ex = idx.expander(repo, m)
+        for s_ in ex.stores:
+            if s_.kind != "sub" or not (s_.base.op == "attr" and s_.base.name == "groups" and
+                                        s_.base.args[0].op == "attr" and s_.base.args[0].name == "base"):
+                d = None
+                # or: a local dictionary merged into the registry with .update(...)
+                if s_.kind == "mcall" and s_.key.name == "update" and s_.base.op == "attr" and s_.base.name == "groups" and \
+                        s_.value is not None and len(s_.value.args) == 2:
+                    d = s_.value.args[1]
+                    vals = [x for x in ex.stores if x.kind == "sub" and x.base.key() == d.key() and x.value is not None]
+                else:
+                    continue
+            else:
+                vals = [s_]
+            for w in vals:
+                v = w.value
+                if v is None:
+                    continue
+                n += 1
+                merges = T.find(v, lambda x: x.op in ("mcall", "call") and x.name in ("concatenate", "hstack", "append", "union1d", "extend")) is not None
+                normal = T.find(v, lambda x: x.op in ("mcall", "call") and x.name in ("unique", "union1d")) is not None
+                sorted_ = T.find(v, lambda x: x.op in ("mcall", "call") and x.name in ("sort", "sorted")) is not None
+                fresh = v.op == "attr" and v.name == "_nodes_in_view"
+                ok = fresh or normal or (sorted_ and m.name == "set_ncomp")  # set_ncomp re-sorts disjoint parts of a unique array
+                col.add(R, m, f"{m.name}: group entry `{unparse(w.node)[:50]}` is sorted and free of duplicates",
+                        "DISCHARGED" if ok else ("VIOLATED" if merges else "UNDECIDED"),
+                        "rows of a view / np.unique(...) / np.union1d(...)" if ok else
+                        f"the entry is {v.short(90)}: members appear in the order of the add_to_group calls and can repeat; "
+                        f"`net.<group>` then lists its cells in that order (the connectivity matrix is matched with the wrong cell pairs) "
+                        f"and a repeated member is selected twice", node=w.node)
+    if n < 2:
+        raise AnalysisError(f"only {n} writes into the group registry found")
+
+
+def view_structure(repo, col, R="R-C11-structure"):
+    """The structure attributes a View carries are those of ITS OWN branches: the per-branch compartment counts are the base's
+    counts at the branches in view, and the cumulative count is the leading-zero cumulative sum of exactly these counts (not a
+    prefix of the base's cumulative sum, which is right only for a view that starts at branch 0).  Network construction and
+    sparse_connect read them from per-cell views."""
+    vi = repo.method("View", "__init__")
+    ex = idx.expander(repo, vi)
+    st = {}
+    for s_ in ex.stores:
+        if s_.kind == "attr" and s_.base.op == "param" and s_.base.name == "self" and s_.key.name in ("ncomp_per_branch", "cumsum_ncomp"):
+            st[s_.key.name] = s_
+    npb, cs = st.get("ncomp_per_branch"), st.get("cumsum_ncomp")
+    ok = npb is not None and npb.value.op == "sub" and npb.value.args[0].op == "attr" and npb.value.args[0].name == "ncomp_per_branch" and \
+        T.find(npb.value.args[0], lambda x: x.op == "attr" and x.name == "base") is not None and \
+        npb.value.args[1].op == "attr" and npb.value.args[1].name == "_branches_in_view" and _is_self(npb.value.args[1].args[0])
+    col.check(ok, R, vi, "View.ncomp_per_branch = the base's counts at the branches in view", "base.ncomp_per_branch[self._branches_in_view]",
+              f"ncomp_per_branch is {npb.value.short(80) if npb else None}", node=npb.node if npb else vi.node)
+    v = idx.inline(repo, vi, cs.value, keep=("cumsum_leading_zero",)) if cs is not None else None
+    lz = v is not None and v.op == "call" and v.name == "cumsum_leading_zero" and len(v.args) == 1
+    own = lz and npb is not None and v.args[0].key() == npb.value.key()
+    col.add(R, vi, "View.cumsum_ncomp = leading-zero cumulative sum of the view's own per-branch counts",
+            "DISCHARGED" if own else ("VIOLATED" if v is not None else "UNDECIDED"),
+            "cumsum_leading_zero(self.ncomp_per_branch)" if own else
+            f"cumsum_ncomp is {v.short(100) if v is not None else None}: for a view that does not start at the module's first branch (a cell "
+            f"of a network) or whose branches have other counts than the first ones, the offsets of its branches / its total number of "
+            f"compartments are wrong", node=cs.node if cs else vi.node)
 
 
 def _named(repo, col, R="R-C11-filter"):
